@@ -140,6 +140,9 @@ func (u *Update) ValueNames() []string {
 
 // UResult is the oracle's verdict for an update.
 type UResult struct {
+	// OrReject: the request is either applied as Item says or refused (ADD / DELETE whose target is a nested
+	// document path: DynamoDB applies it, minidyn refuses the shape) - never "accepted and not applied"
+	OrReject bool
 	Reject bool     // DynamoDB rejects the request (item unchanged)
 	Unsure bool     // semantics uncertain: any outcome admissible
 	Item   val.Item // resulting item when accepted
@@ -290,6 +293,7 @@ func (u *Update) Apply(item val.Item, values val.Item) UResult {
 		pre = val.Item{}
 	}
 	work := pre.Clone()
+	orReject := false
 	// Evaluate all SET right-hand sides on the pre-update item.
 	type pending struct {
 		a Action
@@ -339,7 +343,15 @@ func (u *Update) Apply(item val.Item, values val.Item) UResult {
 				return UResult{Reject: true}
 			}
 			if len(a.Path) != 1 {
-				return UResult{Unsure: true}
+				nv, res := nestedAdd(pre, a.Path, v)
+				if res != nil {
+					return *res
+				}
+				if !setAt(work, a.Path, nv) {
+					return UResult{Reject: true}
+				}
+				orReject = true
+				continue
 			}
 			cur, present := pre[a.Path[0].Name]
 			switch v.K {
@@ -386,11 +398,35 @@ func (u *Update) Apply(item val.Item, values val.Item) UResult {
 			if !ok {
 				return UResult{Reject: true}
 			}
-			if len(a.Path) != 1 {
-				return UResult{Unsure: true}
-			}
 			if v.K != val.KSS && v.K != val.KNS && v.K != val.KBS {
 				return UResult{Reject: true}
+			}
+			if len(a.Path) != 1 {
+				cur, present := a.Path.Resolve(pre)
+				if !present {
+					if _, pok := a.Path[:len(a.Path)-1].Resolve(pre); !pok {
+						return UResult{Reject: true}
+					}
+					orReject = true
+					continue
+				}
+				if cur.K != v.K {
+					return UResult{Reject: true}
+				}
+				d := setDiff(cur, v)
+				if len(d.Set) == 0 {
+					// the member disappears with its last element; only map members are modelled
+					last := a.Path[len(a.Path)-1]
+					parent, pok := a.Path[:len(a.Path)-1].Resolve(work)
+					if last.IsIdx || !pok || parent.K != val.KM {
+						return UResult{Unsure: true}
+					}
+					delete(parent.M, last.Name)
+				} else if !setAt(work, a.Path, d) {
+					return UResult{Reject: true}
+				}
+				orReject = true
+				continue
 			}
 			cur, present := pre[a.Path[0].Name]
 			if !present {
@@ -434,7 +470,7 @@ func (u *Update) Apply(item val.Item, values val.Item) UResult {
 			return UResult{Unsure: true}
 		}
 	}
-	return UResult{Item: work}
+	return UResult{Item: work, OrReject: orReject}
 }
 
 func replaceAt(item val.Item, p Path, v val.V) bool { return setAt(item, p, v) }
@@ -495,4 +531,41 @@ func (u *Update) Paths() []Path {
 		walk(a.RHS)
 	}
 	return out
+}
+
+// nestedAdd computes the value an ADD stores under a nested document path: the rules of the top-level ADD,
+// applied to the current value of the path; a path whose parent does not exist is refused.
+func nestedAdd(pre val.Item, p Path, v val.V) (val.V, *UResult) {
+	cur, present := p.Resolve(pre)
+	if !present {
+		if _, pok := p[:len(p)-1].Resolve(pre); !pok {
+			return val.V{}, &UResult{Reject: true}
+		}
+		if v.K != val.KN && v.K != val.KSS && v.K != val.KNS && v.K != val.KBS {
+			return val.V{}, &UResult{Unsure: true}
+		}
+		return v.Clone(), nil
+	}
+	switch v.K {
+	case val.KN:
+		if cur.K != val.KN {
+			return val.V{}, &UResult{Unsure: true}
+		}
+		da, e1 := val.ParseDec(cur.Str)
+		db, e2 := val.ParseDec(v.Str)
+		if e1 != nil || e2 != nil {
+			return val.V{}, &UResult{Unsure: true}
+		}
+		r := da.Add(db)
+		if !r.InRange() {
+			return val.V{}, &UResult{Unsure: true}
+		}
+		return val.Num(r.Plain()), nil
+	case val.KSS, val.KNS, val.KBS:
+		if cur.K != v.K {
+			return val.V{}, &UResult{Unsure: true}
+		}
+		return setUnion(cur, v), nil
+	}
+	return val.V{}, &UResult{Unsure: true}
 }
